@@ -582,6 +582,9 @@ func runC20(r *Run) {
 	for i := 0; i < r.Pick(4, 40); i++ {
 		c20CloseRace(r, r.Shard*40+i)
 	}
+	for i := 0; i < r.Pick(6, 60); i++ {
+		c20DeleteExpired(r, r.Shard*60+i)
+	}
 	reps := r.Pick(1, 10)
 	for rep := 0; rep < reps; rep++ {
 		for i, cs := range cases {
@@ -598,4 +601,62 @@ func runC20(r *Run) {
 			}
 		}
 	}
+}
+
+// c20DeleteExpired: the barrier also covers a Delete of an entry whose deadline has passed but which has not been
+// reclaimed yet. Keys get a TTL of a millisecond or two; a few milliseconds later (no tick in between, usually) each
+// is deleted; then Wait. On its return every key has been reported exactly once (REMOVED if the Delete took it,
+// EXPIRED if a tick did) and none of them is accounted for any more.
+func c20DeleteExpired(r *Run, idx int) {
+	rng := r.Rng(int64(20500 + idx))
+	nl := &noteLog[int, int64]{}
+	c, err := theine.NewBuilder[int, int64](1000).RemovalListener(nl.listener()).Build()
+	if err != nil {
+		r.Broken("build: %v", err)
+		return
+	}
+	defer c.Close()
+	n := 20 + rng.Intn(60)
+	perm := 10 + rng.Intn(10)
+	for k := 0; k < perm; k++ {
+		c.Set(100000+k, int64(k), 1) // bystanders without a deadline
+	}
+	for k := 0; k < n; k++ {
+		c.SetWithTTL(k, int64(k)<<8|7, 1, time.Duration(500+rng.Intn(1500))*time.Microsecond)
+	}
+	c.Wait()
+	time.Sleep(4 * time.Millisecond)
+	for k := 0; k < n; k++ {
+		c.Delete(k)
+	}
+	c.Wait()
+	// observations at the return of Wait
+	est := c.EstimatedSize()
+	notes := nl.snapshot()
+	per := map[int]int{}
+	for _, nt := range notes {
+		if nt.Key < 100000 {
+			per[nt.Key]++
+		}
+	}
+	missing, twice := 0, 0
+	for k := 0; k < n; k++ {
+		switch per[k] {
+		case 0:
+			missing++
+		case 1:
+		default:
+			twice++
+		}
+	}
+	wit := map[string]any{"round": idx, "keys": n, "bystanders": perm}
+	if missing > 0 || twice > 0 {
+		r.Violate("wait-returned-before-writes-applied/delete-of-an-expired-unreclaimed-entry", fmt.Sprintf("round %d: %d keys stored with a TTL of 0.5-2 ms, deleted 4 ms later, then Wait: on its return %d of them had not been reported to the removal listener and %d had been reported more than once", idx, n, missing, twice), wit)
+	}
+	if est != perm {
+		r.Violate("wait-returned-before-writes-applied/delete-of-an-expired-unreclaimed-entry/still-accounted", fmt.Sprintf("round %d: %d keys stored with a TTL of 0.5-2 ms, deleted 4 ms later, then Wait: on its return EstimatedSize() = %d, want the %d bystanders", idx, n, est, perm), wit)
+	}
+	r.Eval(1)
+	r.Count("deletes_of_expired_unreclaimed_entries_before_a_wait", int64(n))
+	r.Distinct("delete-expired-then-wait")
 }
